@@ -87,6 +87,10 @@ def build(case):
         cfg['lag'] = 0
     if sub == 'c19':
         cfg['pct_depth'] = 1
+        # no two things at the same virtual instant (a produce step tied
+        # with the completion of a reconnection is decided by the schedule)
+        sc['producer'] = [[round(t + 0.0137 * (i + 1), 4), k, n]
+                          for i, (t, k, n) in enumerate(sc['producer'])]
     return mod, sc
 
 
@@ -116,11 +120,12 @@ def normalise(rec):
             a = e['args']
             # server-side handlers: one sequence per client (cross-client
             # order inside one burst depends on the schedule)
-            who = a[0] if (a and isinstance(a[0], str) and len(a[0]) == 20
-                           and lab[0] != 'c') else None
-            if who is None and len(a) > 1 and lab[2] == '*' and \
-                    isinstance(a[1], str) and len(a[1]) == 20:
-                who = a[1]
+            who = None
+            if lab[0] != 'c':
+                for x in a[:3]:      # catch-alls put event / namespace first
+                    if isinstance(x, str) and len(x) == 20:
+                        who = x
+                        break
             put(('h', trepr(lab), who), trepr(a))
         elif k == 'cb':
             put(('cb', e.get('tag')), trepr(e.get('args')))
@@ -141,8 +146,6 @@ def normalise(rec):
             put(('arrive',), trepr(e.get('item')))
         elif k in ('peer_closed', 'peer_eio_close'):
             put((k, e['peer']), 1)
-        elif k == 'log_error':
-            put(('errors',), (e.get('exc') or '').split(':')[0])
         else:
             continue
         n += 1
@@ -161,6 +164,15 @@ def run(case):
             case['sub'], rt.get('harness') or ra.get('harness'))}
     nt, cnt = normalise(rec_t)
     na, cna = normalise(rec_a)
+    if sc['cfg'].get('async_handlers', case['sub'] in ('c06', 'c07', 'c15',
+                                                       'c19')):
+        # background handlers: what a peer receives is compared after they
+        # have all finished, as a multiset (their relative order to the
+        # reader's own answers depends on the schedule)
+        for d in (nt, na):
+            for key in d:
+                if key[0] in ('rx', 'ss_rx', 'h'):
+                    d[key] = sorted(d[key])
     for key in sorted(set(nt) | set(na), key=repr):
         a, b = nt.get(key, []), na.get(key, [])
         if a != b:
@@ -175,6 +187,16 @@ def run(case):
     # both worlds must also agree on what the sub-check's own oracle says
     st = sorted({x['sig'] for x in rt.get('violations', [])})
     sa = sorted({x['sig'] for x in ra.get('violations', [])})
+    from sim.runner import load_known, known_match
+    known = load_known()
+    if any(known_match(known, mod.PROP, x) for x in st + sa):
+        # the scenario runs into a known finding of its own property (e.g.
+        # the client left in an inconsistent state); what follows it is not
+        # comparable and is reported by that property's check
+        return {'violations': [], 'digest': rt.get('digest'),
+                'nontrivial': False, 'stats': {'skipped_known_finding': 1},
+                'sim_time': 0.0, 'cfg': case['sub'], 'choices': {},
+                'log': []}
     if st != sa:
         v.add('oracle_verdicts_differ', 'scenario %s/%d: threaded %s | '
               'asyncio %s' % (case['sub'], case['subseed'], st, sa),
